@@ -65,7 +65,15 @@ func fixedSeq() []*SeqCase {
 	add := func(id int) SeqOp { return SeqOp{Op: "add", IDs: []int{id}} }
 	del := func(ids ...int) SeqOp { return SeqOp{Op: "del", IDs: ids} }
 	get := SeqOp{Op: "get", Time: seqT0, Size: 1000}
+	// box 3 = [0,1] expires at seqT0+5 in the last case
+	u2 := append([]TxSpec{}, u...)
+	u2[3] = TxSpec{ID: 3, Exp: seqT0 + 5, Subs: []int{0, 1}}
+	late := SeqOp{Op: "get", Time: seqT0 + 10, Size: 1000}
 	return []*SeqCase{
+		// the same through expiry: box 3 is pending, deleting the absent box 4 unlinks their shared sub tx 0, tx 0 is
+		// accepted on its own, the expiry of box 3 removes tx 0's index entry, the next DelTxs finds the index empty and
+		// resets the storage: the accepted, undeleted, unexpired tx 0 is gone
+		{Mon: "seq", Kind: "fixed-orphan-wiped-by-reset", U: u2, Ops: []SeqOp{add(3), del(4), add(0), late, del(1), late}},
 		// deleting a box that is not pending orphans its standalone sub tx (index entry gone, slot kept) ...
 		{Mon: "seq", Kind: "fixed-orphan-handed-out", U: u, Ops: []SeqOp{add(2), add(0), del(3), get}},
 		// ... which can then no longer be deleted,
